@@ -195,6 +195,7 @@ func HarnessC08Diagnosed() {
 			s("use"), yMap(s("needs"), ySeq(s("call")), s("runs-on"), s("ubuntu-latest"), s("steps"), ySeq(
 				yMap(s("run"), s("echo ${{ needs.call.outputs."+nm("k4", "result")+" }} ${{ needs.call.outputs.nope }}")),
 				yMap(s("uses"), s("actions/checkout@v4"), s("with"), yMap(s(nm("k5", "ref")), s("x"), s("nope"), s("y"), s(nm("k12", "args")), s("z"), s(nm("k13", "entrypoint")), s("e"))),
+				yMap(s("run"), s("echo ${{ github.event.issue['"+nm("k14", "title")+"'] }} ${{ github['"+nm("k15", "head_ref")+"'] }}")),
 				yMap(s("id"), s(nm("k10", "get_tag")), s("run"), s("echo")),
 				yMap(s("id"), s(nm("k11", "get_tag")), s("run"), s("echo")),
 				yMap(s("run"), s("echo ${{ "+nm("k7", "startswith")+"(github.event.pull_request.title, 'x') }} ${{ "+nm("k8", "contains")+"(github.event.issue.body, 'y') }} ${{ github.event.issue.title }}")),
